@@ -97,6 +97,9 @@ func RunTemplate(t *scriggo.Template, o Opts) (res Result) {
 	ro := &scriggo.RunOptions{Context: o.Ctx}
 	if !o.NoPrint {
 		ro.Print = func(v any) {
+			if printed.Len() >= 16<<20 {
+				return // a runaway template must not exhaust the memory of the checker
+			}
 			if o.PrintLikeGo {
 				printed.WriteString(FormatPrint(v))
 			} else {
